@@ -167,11 +167,17 @@ func c05SigAgg(f []string) string {
 	}
 	// let the rest of the pipeline finish (nobody reads readChan any more: drain it), and watch for late renders
 	atomic.StoreInt32(&stop, 1)
+	drained := make(chan struct{})
 	go func() {
 		for range ext.ReadChan() {
 		}
+		close(drained)
 	}()
 	time.Sleep(230 * time.Millisecond)
+	select { // no worker of this case may still be running when the next case starts its trace
+	case <-drained:
+	case <-time.After(3 * time.Second):
+	}
 	b2i := func(b bool) int {
 		if b {
 			return 1
